@@ -18,7 +18,7 @@ func main() {
 			"opened on canon(tip) + the SUT's pool; a case = one history, distinct by tree shape + op sequence; non-trivial = at least one walk that undid a block")
 	defer sn.CleanupScratch()
 	nh := r.N(150, 4000)
-	hist.RunHistoriesX(r, nh, gen.DefaultOpts(), hist.StepOpts{Reopen: true, Pool: true, Mine: true}, 10, 40,
+	hist.RunHistoriesX(r, nh, gen.DefaultOpts(), hist.StepOpts{Reopen: true, Pool: true, Mine: true, Engine: true}, 10, 40,
 		[]hist.Auditor{hist.CanonAuditor}, func(s *hist.SUT, op hist.Op) []hist.Problem {
 			return hist.MustSucceed(op)
 		}, func(s *hist.SUT, rng *rand.Rand) []hist.Problem {
